@@ -266,6 +266,10 @@ def load_corpus():
     return out
 
 
+def translate(ctx):
+    return ctx.translate("cma_params.py")
+
+
 def build(ctx):
     return ctx.harness("c11", ["c11.cpp"], repo_sources=REPO_SOURCES)
 
@@ -276,6 +280,7 @@ def run(ctx):
                     "ASan/UBSan runtime for the real code's memory safety (not a theorem)"]
     ctx.assumptions += ["exp is a positive function, sqrt|last eigenvalue| > 0 (sigma_pos)", "phi is order preserving (rank_invariance)",
                         "covariance theorem over the reals (Mathlib), not over floating point"]
+    translate(ctx)
     ctx.prove(["SharkVerif.Props.C11"])
     if not ctx.quick:
         ctx.leanchecker(["SharkVerif.Props.C11"])
